@@ -179,14 +179,14 @@ Print Assumptions C01_tok_float_cut_only.
 
 (* ---- date-times ---------------------------------------------------------------------------------- *)
 (* date-time = offset-date-time / local-date-time / local-date / local-time with the RFC 3339
-   field ranges (Spec/Syntax.v date_time_tok); `dt_follow r`: what follows cannot continue it *)
+   field ranges (Spec/Syntax.v date_time_tok); `dt_stop r`: what follows cannot continue it *)
 Theorem C01_tok_date_time : forall i t d r,
-  date_time_tok t d -> rest i = t ++ r -> dt_follow t r -> date_time i = Ok d (adv t i).
+  date_time_tok t d -> rest i = t ++ r -> dt_stop r -> date_time i = Ok d (adv t i).
 Proof. exact date_time_complete. Qed.
 Print Assumptions C01_tok_date_time.
 
 Theorem C01_tok_date_time_cut_only : forall i e j, date_time i = Cut e j ->
-  forall t d r, date_time_tok t d -> rest i = t ++ r -> dt_follow t r -> False.
+  forall t d r, date_time_tok t d -> rest i = t ++ r -> dt_stop r -> False.
 Proof. exact date_time_cut_only. Qed.
 Print Assumptions C01_tok_date_time_cut_only.
 
